@@ -20,6 +20,7 @@ RULE = ('Per case: one Metric subclass (found by introspection of fedjax.metrics
         'merged examples. Non-trivial: the case shows at least one domain edge (tie, masked or fully masked target, k<1, '
         'k>=C, logits mask, extreme magnitude, per_position, >1 domain, multi-example identity); distinct by (class, '
         'constructor args, C, L, digest of targets and scores).')
+RULE += (" Wave-4 addition: a third of the 'metric' cases pass writable NumPy arrays; they must be bit-identical after the call and a second evaluation must give the same statistic.")
 ASSUMPTIONS = [
     'scores are finite float32 with no NaN and no -0.0 (tie semantics are undefined there); -inf only enters through the '
     'documented logits_mask argument; targets and domain ids are in range',
